@@ -1,4 +1,5 @@
 """Rules over tz::tzif / shared::tzif: FLOOR-B, PARSE-ORDER, ITER-FEEDBACK."""
+import re
 from . import mir
 from .term import Terms, walk, show, is_call, alts
 
@@ -248,6 +249,26 @@ def fold_agree(rep, prog, rule="FOLD-AGREE"):
         rep.ok(rule, "sort key fold", how="str::to_ascii_lowercase", loc=k[0].loc())
     else:
         rep.violation(rule, "sort key fold", "ZoneInfoName::new builds its key with %s; the comparator folds to ASCII lower case" % kf, k[0].loc())
+    # special-cased names (UTC, Etc/Unknown) in the back-ends' get(): compared like every other name, ignoring ASCII case
+    for g in sorted(prog.fns.values(), key=lambda g: g.key):
+        if g.crate != "jiff" or g.is_closure or not (g.path.startswith("tz::db::") and g.path.endswith("::Database::get")):
+            continue
+        T = Terms(g)
+        exact = []
+        for bi, t in mir.iter_calls(g):
+            pth = t.get("path", "")
+            if re.search(r"PartialEq<.*>.*::eq$|PartialEq>::eq$", pth) and t.get("args"):
+                a0 = T.at_call(bi, t, 0)
+                a1 = T.at_call(bi, t, 1) if len(t["args"]) > 1 else None
+                if any(x[0] == "param" and x[2] == "query" for x in (a0, a1) if x):
+                    exact.append(t["span"]["line"])
+        key = "special names in " + g.path.split("::")[-4] + " get"
+        if exact:
+            rep.violation(rule, key, "the query is compared with a name by `==` at line(s) %s: \"utc\" then falls through to the ordinary "
+                          "case-insensitive lookup and yields a different (TZif-backed) zone than \"UTC\", so a printed zone does not "
+                          "parse back to an equal one" % exact, g.loc())
+        else:
+            rep.ok(rule, key, how="no case-sensitive comparison of the query", loc=g.loc())
     o = [g for g in prog.fns.values() if g.crate == "jiff" and "ZoneInfoName as core::cmp::Ord>::cmp" in g.path]
     if o:
         T = Terms(o[0])
